@@ -246,11 +246,38 @@ def run(check):
         g = late_waiter_case(rng)
         case, sem = runfam.build_case("c03-lw%04d" % i, g, **({"triggers": g["triggers"]} if g["triggers"] else {}))
         late.append((case, sem, g))
+    # runs aborted by the caller while a step never ends: whatever is returned is a declared output with its data or an error -
+    # never neither, and a returned output is built from what was produced
+    from .. import cancelfam
+    aborted = []
+    for j in range(check.pick(36, 240)):
+        rng = random.Random(derive_seed(check.seed, "c03-abort", j))
+        prog, scripts, name = cancelfam.NEVER_ENDING[j % len(cancelfam.NEVER_ENDING)](rng)
+        inp = cancelfam.base_input(rng)
+        evs, sem_ = cancelfam.certain_events(prog, scripts, inp)
+        kind, src, nth = evs[rng.randrange(len(evs))]
+        aborted.append(({"id": "c03-ab%04d" % j, "files": prog.files(), "scripts": scripts, "runs": [{"input": inp}], "triggers": [{"kind": kind, "src": src, "nth": nth, "action": "cancel:0"}]},
+                        prog, "%s aborted at %s:%s#%d" % (name, kind, src, nth)))
     with harness.Runner() as rn:
         if not rn.hang_oracle_works():
             check.fail_broken("the hang oracle (Go runtime deadlock report) does not fire in this build")
         runfam.run_and_monitor(check, rn, items, {"C03"}, on_result=on_result)
         lout = rn.run_cases([c for c, _s, _g in late])
+        aout = rn.run_cases([c for c, _p, _s in aborted], per_case_timeout=90)
+    for case, prog, shape in aborted:
+        o = aout.get(case["id"], {})
+        check.count()
+        if "result" not in o or o["result"].get("prepare_err") or o["result"].get("parse_err"):
+            check.inconclusive_case(case["id"], str(o.get("death", {}).get("key") or "rejected"))
+            continue
+        run = (o["result"].get("runs") or [{}])[0]
+        if not run.get("out_id") and not run.get("err"):
+            check.report("result@neither-output-nor-error", "%s: the run returned neither a declared output nor an error" % shape, {"case": case, "run": run})
+        elif run.get("out_id") and run["out_id"] not in prog.outputs:
+            check.report("result@undeclared-output", "%s: the run returned the output %r, which the workflow does not declare" % (shape, run["out_id"]), {"case": case, "run": run})
+        elif run.get("out_id") and run.get("schema_check"):
+            check.report("result@output-not-of-declared-type", "%s: the returned output %r does not match its schema: %s" % (shape, run["out_id"], run["schema_check"][:200]), {"case": case, "run": run})
+        check.nontrivial("aborted|%s|%s" % (shape.split(" aborted")[0], "output" if run.get("out_id") else "error"))
     for case, sem, g in late:
         o = lout.get(case["id"], {})
         check.count()
